@@ -42,21 +42,23 @@ TempVal(s, t) ==
   IF t.k = "reg" THEN s.regs[t.r]
   ELSE LET sp == s.regs[Cfg.sp] IN IF sp.t = "stk" THEN Sparse(s.stk, sp.o + t.off, UndefV) ELSE UndefV
 
-\* "" if position p corresponds shallowly, else a reason
+\* <<tag, reason>>; tag "" if position p corresponds shallowly
 Shallow(c, s, p) ==
   LET m == s.m e == m.env[p] snd == TempVal(s, Cfg.temps[p].snd)
   IN IF e.chi = "ext" THEN
-        (IF e.v.t # "int" THEN "integer variable holds an object in the AxCut machine"
-         ELSE IF snd = IntV(e.v.w) THEN ""
-         ELSE IF IsJunk(snd) THEN "integer variable is undefined in the generated code"
-         ELSE "integer variable differs")
+        (IF e.v.t # "int" THEN <<"axcut", "integer variable holds an object in the AxCut machine">>
+         ELSE IF snd = IntV(e.v.w) THEN <<"", "">>
+         ELSE IF IsJunk(snd) THEN <<"undef", "integer variable holds a destroyed or never-written value in the generated code">>
+         ELSE <<"env", "integer variable differs">>)
      ELSE IF e.v.t = "obj" THEN
-        (IF snd.t = "int" /\ AXtorPos(QQ(c), e.ty, e.v.tag) >= 0 /\ snd.w = FromNat(JumpLen * AXtorPos(QQ(c), e.ty, e.v.tag)) THEN ""
-         ELSE "constructor tag differs")
+        (IF snd.t = "int" /\ AXtorPos(QQ(c), e.ty, e.v.tag) >= 0 /\ snd.w = FromNat(JumpLen * AXtorPos(QQ(c), e.ty, e.v.tag)) THEN <<"", "">>
+         ELSE IF IsJunk(snd) THEN <<"undef", "constructor tag holds a destroyed or never-written value in the generated code">>
+         ELSE <<"env", "constructor tag differs">>)
      ELSE IF e.v.t = "clo" THEN
-        (IF snd.t = "code" /\ snd.o = 0 /\ (e.v.node \notin DOMAIN s.tab \/ s.tab[e.v.node] = snd.l) THEN ""
-         ELSE "method table differs")
-     ELSE "object variable holds an integer in the AxCut machine"
+        (IF snd.t = "code" /\ snd.o = 0 /\ (e.v.node \notin DOMAIN s.tab \/ s.tab[e.v.node] = snd.l) THEN <<"", "">>
+         ELSE IF IsJunk(snd) THEN <<"undef", "method table pointer holds a destroyed or never-written value in the generated code">>
+         ELSE <<"env", "method table differs">>)
+     ELSE <<"axcut", "object variable holds an integer in the AxCut machine">>
 
 \* learn the method-table label of closures seen for the first time
 Learn(s) ==
@@ -83,18 +85,25 @@ Sync(c, s) ==
        IN
        IF hv.why # "" THEN Fail(s, "heap", hv.why \o " (at " \o n.k \o ")")
        ELSE IF hv.F > peak + FootprintK THEN Fail(s, "footprint", "allocation frontier exceeds peak reachable blocks + K (at " \o n.k \o ")")
-       ELSE LET bad == {p \in 1..Len(m.env) : Shallow(c, s, p) # ""}
-            IN IF bad # {} THEN Fail(s, "env", Shallow(c, s, CHOOSE p \in bad : TRUE) \o " (at " \o n.k \o ")")
+       ELSE LET bad == {p \in 1..Len(m.env) : Shallow(c, s, p)[1] # ""}
+            IN IF bad # {} THEN
+                    LET w == Shallow(c, s, CHOOSE p \in bad : TRUE)
+                    IN Fail(s, w[1], w[2] \o " (at " \o n.k \o ")")
                ELSE LET tab2 == Learn(s)
                         m2 == AStep(QQ(c), m, TRUE)
-                        s2 == [s EXCEPT !.m = m2, !.tab = tab2, !.peak = peak, !.F = hv.F]
+                        s2 == [s EXCEPT !.m = m2, !.tab = tab2, !.peak = peak, !.F = hv.F,
+                                        !.cov = [maxenv |-> IF Len(m.env) > s.cov.maxenv THEN Len(m.env) ELSE s.cov.maxenv,
+                                                 maxdef |-> IF hv.ndeferred > s.cov.maxdef THEN hv.ndeferred ELSE s.cov.maxdef,
+                                                 maxlin |-> IF hv.nlinear > s.cov.maxlin THEN hv.nlinear ELSE s.cov.maxlin,
+                                                 maxshared |-> IF hv.shared > s.cov.maxshared THEN hv.shared ELSE s.cov.maxshared]]
                     IN IF m2.status = "fail" THEN Fail(s2, "axcut", "AxCut machine: " \o m2.why)
                        ELSE IF m2.status = "source-undefined" THEN [s2 EXCEPT !.status = "source-undefined"]
                        ELSE [s2 EXCEPT !.pc = s.pc + 1, !.steps = s.steps + 1, !.marks = s.marks + 1]
 
 PInit(c) ==
   IsaInit(PP(c), Cases[c].args, Cfg.nblocks)
-    @@ [c |-> c, m |-> AInit(QQ(c), Cases[c].args), marks |-> 0, tab |-> <<>>, peak |-> 0, F |-> 0]
+    @@ [c |-> c, m |-> AInit(QQ(c), Cases[c].args), marks |-> 0, tab |-> <<>>, peak |-> 0, F |-> 0,
+        cov |-> [maxenv |-> 0, maxdef |-> 0, maxlin |-> 0, maxshared |-> 0]]
 
 PStep(s) ==
   LET c == s.c IN
@@ -117,7 +126,7 @@ Run == /\ st.status = "run"
 Report == /\ st.status \notin {"run", "reported"}
           /\ PrintT("RESULT " \o ToJson([case |-> Cases[st.c].name, status |-> st.status, tag |-> st.tag, why |-> st.why,
                                           nout |-> Len(st.out), steps |-> st.steps, marks |-> st.marks, hi |-> st.hi,
-                                          peak |-> st.peak, F |-> st.F, pc |-> st.pc, msteps |-> st.m.steps]))
+                                          peak |-> st.peak, F |-> st.F, pc |-> st.pc, msteps |-> st.m.steps, cov |-> st.cov]))
           /\ st' = [st EXCEPT !.status = "reported"]
 Next == Run \/ Report
 Spec == Init /\ [][Next]_st
